@@ -1,4 +1,4 @@
-"""Entry point of every check:  ./check <Cxx> [--tier quick|thorough] [--replay file]"""
+"""Entry point of every check:  ./check <Cxx> [--tier quick|thorough] [--seed N] [--replay file]"""
 import argparse
 import importlib
 import json
@@ -20,10 +20,11 @@ def main():
     ap.add_argument('pid')
     ap.add_argument('--tier', default=os.environ.get('VERIF_TIER', 'quick'))
     ap.add_argument('--replay')
+    ap.add_argument('--seed', type=int, default=None)
     ap.add_argument('--no-lean', action='store_true', help='debugging only: skip the Lean side')
     args = ap.parse_args()
     tier = args.tier if args.tier in ('quick', 'thorough') else 'quick'
-    seed = int(os.environ.get('VERIF_SEED', '0') or 0)
+    seed = args.seed if args.seed is not None else int(os.environ.get('VERIF_SEED', '0') or 0)
     pid = args.pid.upper()
     os.chdir(core.ROOT)
     try:
